@@ -143,8 +143,18 @@ func (c *FnCtx) call(in ssa.CallInstruction, cc *ssa.CallCommon) Val {
 		if st2, ok := sv.Type().Underlying().(*types.Slice); ok {
 			s := c.val(sv)
 			a := c.backArr(st2.Elem())
-			c.setArr(st, a, sStore(c.arrIn(st, a), sx("sref", s.T), c.freshConst("sorted", arrSort(SInt, c.sortOf(st2.Elem())))))
-			c.note(callee.String() + ": built-in model (elements of the argument become arbitrary; permutation/sortedness not assumed)")
+			oldData := sSel(c.arrIn(st, a), sx("sref", s.T))
+			nd := c.freshConst("sorted", arrSort(SInt, c.sortOf(st2.Elem())))
+			c.setArr(st, a, sStore(c.arrIn(st, a), sx("sref", s.T), nd))
+			// every element after sorting is one of the elements before (half of "permutation"; sortedness is not assumed)
+			c.ix("0", "0")
+			pf := c.fresh("perm")
+			pi := c.fresh("perminv")
+			c.D.add(pf, fmt.Sprintf("(declare-fun |%s| (Int) Int)", pf))
+			c.D.add(pi, fmt.Sprintf("(declare-fun |%s| (Int) Int)", pi))
+			c.assume(c.curItems, fmt.Sprintf("(forall ((i Int)) (! (=> (and (<= 0 i) (< i (slen %s))) (and (<= 0 (|%s| i)) (< (|%s| i) (slen %s)) (= (select %s (ix (soff %s) i)) (select %s (ix (soff %s) (|%s| i)))))) :pattern ((select %s (ix (soff %s) i)))))", s.T, pi, pi, s.T, nd, s.T, oldData, s.T, pi, nd, s.T))
+			c.assume(c.curItems, fmt.Sprintf("(forall ((j Int)) (! (=> (and (<= 0 j) (< j (slen %s))) (and (<= 0 (|%s| j)) (< (|%s| j) (slen %s)) (= (select %s (ix (soff %s) (|%s| j))) (select %s (ix (soff %s) j))))) :pattern ((select %s (ix (soff %s) j)))))", s.T, pf, pf, s.T, nd, s.T, pf, oldData, s.T, oldData, s.T))
+			c.note(callee.String() + ": built-in model (same elements before and after, same length; sortedness not assumed)")
 		}
 		c.libCallbackEffects(cc)
 		return Val{Tup: []Val{}}
@@ -715,6 +725,13 @@ func (c *FnCtx) appendOp(in ssa.CallInstruction, cc *ssa.CallCommon) Val {
 	if k, ok := cc.Args[1].(*ssa.Const); ok && k.Value == nil {
 		fixed = 0
 	}
+	if k, ok := cc.Args[0].(*ssa.Const); ok && k.Value == nil && fixed < 0 {
+		// append([]T(nil), t...): a copy of t (whole backing array copied, same index space)
+		ref := c.allocRef("append")
+		c.setArr(st, arr, sStore(c.arrIn(st, arr), ref, sSel(c.arrIn(st, arr), sx("sref", t.T))))
+		res := sIte(sEq(sx("slen", t.T), "0"), "(mk_slice 0 0 0)", sx("mk_slice", ref, sx("soff", t.T), sx("slen", t.T)))
+		return Val{T: res, S: SSlice, GT: rt}
+	}
 	ref := c.allocRef("append")
 	base := sx("+", sx("soff", s.T), sx("slen", s.T))
 	c.ix("0", "0")
@@ -959,23 +976,17 @@ func (c *FnCtx) frameCheck(x *ssa.Return) {
 	if con == nil || !con.HasMod {
 		return
 	}
-	declared := map[string][]Expr{}
-	for _, m := range con.Modifies {
-		for _, n := range c.V.modExprArrays(m, c.fn) {
-			declared[n] = append(declared[n], m)
+	declared := c.declaredMods()
+	names := map[string]bool{}
+	for n := range c.V.ModSets[c.fn] {
+		if n != "*" {
+			names[n] = true
 		}
 	}
-	computed := c.V.ModSets[c.fn]
-	for n := range computed {
-		if n == "*" {
-			continue
-		}
-		if _, ok := declared[n]; !ok {
-			ob := c.assert(c.curItems, "frame", "frame:"+n, "", "false", x, nil, true)
-			ob.Text = "array " + n + " may be modified but is not listed in the modifies clause"
-		}
+	for n := range declared {
+		names[n] = true
 	}
-	for n, ms := range declared {
+	for n := range names {
 		if !c.ensureArr(n) {
 			continue
 		}
@@ -983,54 +994,12 @@ func (c *FnCtx) frameCheck(x *ssa.Return) {
 		if cur == old {
 			continue
 		}
-		if f, ok := c.frameFormula(n, ms, c.cur); ok {
-			ob := c.assert(c.curItems, "frame", "frame:"+n, "", f, x, nil, true)
-			ob.Text = "only the listed locations of " + n + " change"
-		}
-		continue
-		// indices that may change
-		whole := false
-		var idxs []string
-		env := c.specEnvFor(c.entry, c.entry, nil)
-		for _, m := range ms {
-			switch e := m.(type) {
-			case *EIdent:
-				whole = true
-			case *EIndex:
-				idxs = append(idxs, env.tr(e.I).T)
-			case *ESel:
-				idxs = append(idxs, env.tr(e.X).T)
-			case *ECall:
-				if id, ok := e.Fun.(*EIdent); ok && (id.Name == "mapof" || id.Name == "elems") {
-					v := env.tr(e.Args[0])
-					if id.Name == "elems" {
-						idxs = append(idxs, sx("sref", v.T))
-					} else {
-						idxs = append(idxs, v.T)
-					}
-				} else {
-					whole = true
-				}
-			default:
-				whole = true
-			}
-		}
-		if whole {
-			continue
-		}
-		var neq []string
-		for _, ix := range idxs {
-			neq = append(neq, sNot(sEq("fr_r", ix)))
-		}
-		// objects allocated during the call are not covered by the frame
-		neq = append(neq, sx("<", "fr_r", c.entry.alloc))
-		idxSort := "Int"
-		f := fmt.Sprintf("(forall ((fr_r %s)) %s)", idxSort, sImp(sAnd(neq...), sEq(sSel(cur, "fr_r"), sSel(old, "fr_r"))))
-		if !strings.HasPrefix(string(c.arrSorts[n]), "(Array Int ") {
-			continue
+		f, ok := c.frameFormula(n, declared[n], c.cur)
+		if !ok {
+			continue // declared as a whole array
 		}
 		ob := c.assert(c.curItems, "frame", "frame:"+n, "", f, x, nil, true)
-		ob.Text = "only the listed locations of " + n + " change"
+		ob.Text = "outside the locations listed in the modifies clause, pre-existing entries of " + n + " are unchanged"
 	}
 }
 
@@ -1043,6 +1012,8 @@ func (c *FnCtx) frameFormula(n string, ms []Expr, st *State) (string, bool) {
 	env := c.specEnvFor(c.entry, c.entry, nil)
 	for _, m := range ms {
 		switch e := m.(type) {
+		case *EIdent:
+			return "", false
 		case *EIndex:
 			idxs = append(idxs, env.tr(e.I).T)
 		case *ESel:
